@@ -471,12 +471,21 @@ fn trivial_case(cx: &mut Ctx, st: &[u64], slot: u64) {
 
 /// The receive path of a real node (`Alpenglow::handle_disseminator_shred`, single-stepped through the verif hook)
 /// must hand every authentic shred to `Disseminator::forward` — also when the node is the slot's leader and was
-/// sampled as relay for its own shred — so that the loss-free run of the forwarding tables is what nodes really do.
+/// sampled as relay for its own shred, and whatever the node already holds of the block when the shred arrives —
+/// so that the loss-free run of the forwarding tables is what nodes really do.
 /// Oracle: for every shred of a leader-signed slice, the addresses the node's disseminator sends to equal those of
 /// a bare `forward` on an independently built instance of the same validator.
-fn node_glue_case(cx: &mut Ctx, rng: &mut Rng, own: usize, n: usize) {
+///
+/// `order` (arrival order of the shreds of the 1-3 slice block of each slot):
+///   0 index order, slice after slice;  1 per slice: the shreds this node does not have to forward first, its own last;
+///   2 of every slice the shreds of others first (block complete), then all shreds this node has to forward;
+///   3 one random permutation of all shreds.
+/// `complete`: the last slice carries the last-slice marker, so the block is reconstructed once 32 shreds of every
+/// slice are in (without it the blockstore never completes the slot). In its own slot the node holds the block
+/// beforehand when `own_first` (the leader's `add_own_slice` of every slice), its shreds then come back by loopback.
+fn node_glue_case<D: Disseminator + Send + Sync + 'static>(cx: &mut Ctx, rng: &mut Rng, own: usize, n: usize, kind: &str, mk: &dyn Fn(RecNet, Arc<ValidatorEpochInfo>) -> D, order: usize, complete: bool, own_first: bool) {
     let env = cx.env;
-    cx.rec.begin_case(&format!("node-glue own={own} n={n}"));
+    cx.rec.begin_case(&format!("node-glue {kind} own={own} n={n} order={order} complete={complete} own-first={own_first}"));
     let sks: Vec<signature::SecretKey> = (0..n).map(|_| signature::SecretKey::new(rng)).collect();
     let vsks: Vec<aggsig::SecretKey> = (0..n).map(|_| aggsig::SecretKey::new(rng)).collect();
     let validators: Vec<ValidatorInfo> = (0..n)
@@ -501,9 +510,10 @@ fn node_glue_case(cx: &mut Ctx, rng: &mut Rng, own: usize, n: usize) {
         let rq: UdpNetwork<RepairRequest, RepairResponse> = UdpNetwork::new_with_any_port();
         let rp: UdpNetwork<RepairResponse, RepairRequest> = UdpNetwork::new_with_any_port();
         let txs: UdpNetwork<Transaction, Transaction> = UdpNetwork::new_with_any_port();
-        let node = Alpenglow::new(sks[own].clone(), vsks[own].clone(), TrivialAll2All::new(validators.clone(), a2a), Rotor::new(net_node.clone(), vei.clone()), rq, rp, vei.clone(), txs);
-        (node, Rotor::new(net_ref.clone(), vei.clone()))
+        let node = Alpenglow::new(sks[own].clone(), vsks[own].clone(), TrivialAll2All::new(validators.clone(), a2a), mk(net_node.clone(), vei.clone()), rq, rp, vei.clone(), txs);
+        (node, mk(net_ref.clone(), vei.clone()))
     };
+    let bs = node.verif_blockstore();
     // two slots: one led by the node itself, one led by somebody else
     let mut slots = Vec::new();
     let mut s = 4 + rng.below(1 << 16);
@@ -514,23 +524,70 @@ fn node_glue_case(cx: &mut Ctx, rng: &mut Rng, own: usize, n: usize) {
     }
     let mut class = 0u64;
     for (slot, leader) in slots {
-        let slice_index: SliceIndex = wincode::deserialize(&(rng.below(3)).to_le_bytes()).expect("slice index");
-        let slice = Slice { slot: Slot::new(slot), slice_index, is_last: false, parent: None, data: (0..200u64).map(|i| (i * 7 + slot) as u8).collect() };
-        let shreds = RegularShredder::default().shred(&slice, &sks[leader]).expect("fits").to_vec();
-        let mut relayed_by_own = 0;
-        for v in shreds.iter() {
-            let sh = v.as_shred().clone();
-            let want = env.call(&reference, &net_ref, &sh, true);
+        // a block of 1-3 slices (slice 0 names a parent, every slice holds an empty transaction list: 8 zero bytes)
+        let nslices = 1 + rng.below(3) as usize;
+        let first = if complete { 0 } else { rng.below(3) };
+        let mut shreds: Vec<Vec<alpenglow::shredder::ValidatedShred>> = Vec::new();
+        let mut payloads = Vec::new();
+        for j in 0..nslices {
+            let slice_index: SliceIndex = wincode::deserialize(&(first + j as u64).to_le_bytes()).expect("slice index");
+            let hb: Vec<u8> = (0..32u64).map(|q| (slot + 7 * q) as u8).collect();
+            let parent = if first == 0 && j == 0 { Some((Slot::new(slot - 1), wincode::deserialize(&hb).expect("hash"))) } else { None };
+            let mut pb: Vec<u8> = match &parent { None => vec![0], Some(_) => { let mut v = vec![1]; v.extend_from_slice(&(slot - 1).to_le_bytes()); v.extend_from_slice(&hb); v } };
+            pb.extend_from_slice(&8u64.to_le_bytes());
+            pb.extend_from_slice(&[0u8; 8]);
+            payloads.push(pb);
+            let slice = Slice { slot: Slot::new(slot), slice_index, is_last: complete && j + 1 == nslices, parent, data: vec![0u8; 8] };
+            shreds.push(RegularShredder::default().shred(&slice, &sks[leader]).expect("fits").to_vec());
+        }
+        // what this node has to send on for each shred (a bare `forward` of an independent instance)
+        let wants: Vec<Vec<Out>> = shreds.iter().map(|sl| sl.iter().map(|v| env.call(&reference, &net_ref, v.as_shred(), true)).collect()).collect();
+        let mine = |j: usize, i: usize| !wants[j][i].dests().is_empty();
+        let mut arrivals: Vec<(usize, usize)> = Vec::new();
+        match order {
+            0 => for j in 0..nslices { for i in 0..TOTAL_SHREDS { arrivals.push((j, i)); } },
+            1 => for j in 0..nslices {
+                let mut a: Vec<(usize, usize)> = (0..TOTAL_SHREDS).map(|i| (j, i)).collect();
+                rng.shuffle(&mut a);
+                a.sort_by_key(|&(j, i)| mine(j, i));
+                arrivals.extend(a);
+            },
+            2 => {
+                let mut a: Vec<(usize, usize)> = (0..nslices).flat_map(|j| (0..TOTAL_SHREDS).map(move |i| (j, i))).collect();
+                rng.shuffle(&mut a);
+                a.sort_by_key(|&(j, i)| mine(j, i));
+                arrivals = a;
+            }
+            _ => {
+                arrivals = (0..nslices).flat_map(|j| (0..TOTAL_SHREDS).map(move |i| (j, i))).collect();
+                rng.shuffle(&mut arrivals);
+            }
+        }
+        if leader == own && own_first {
+            for j in 0..nslices {
+                let payload = alpenglow::types::slice::SlicePayload::try_from(&payloads[j][..]).expect("slice payload decodes");
+                let arr: Box<[alpenglow::shredder::ValidatedShred; TOTAL_SHREDS]> = Box::new(shreds[j].clone().try_into().expect("64 shreds"));
+                let r = catch(|| env.rt.block_on(async { bs.write().await.add_own_slice(payload, arr).await }));
+                cx.rec.oracle(r.is_ok(), "node-receive-path-does-not-forward", || format!("node {own} of {n}: add_own_slice of slice {j} of its own slot {slot} panicked"));
+            }
+        }
+        let (mut relayed_by_own, mut after_complete) = (0, 0);
+        for &(j, i) in &arrivals {
+            let sh = shreds[j][i].as_shred().clone();
+            let want = wants[j][i].clone();
+            let held = env.rt.block_on(async { bs.read().await.disseminated_block_hash(Slot::new(slot)).is_some() });
             net_node.log.lock().unwrap().clear();
             let r = catch(|| env.rt.block_on(node.verif_handle_disseminator_shred(sh.clone())));
             let got: Vec<usize> = net_node.log.lock().unwrap().drain(..).map(|a| idx_of(&a)).collect();
             let got = match r { Ok(Ok(())) => Out::To(got), Ok(Err(e)) => Out::Panic(format!("io error {e}")), Err(m) => Out::Panic(m) };
-            if !want.dests().is_empty() { relayed_by_own += 1; }
+            if !want.dests().is_empty() { relayed_by_own += 1; if held { after_complete += 1; } }
             let (_, sl, ix) = shred_position(&sh);
-            cx.rec.oracle(got == want, "node-receive-path-does-not-forward", || format!("node {own} of {n} (leader of slot {slot}: {leader}) handling shred (slot {slot}, slice {sl}, index {ix}) from the disseminator sent to {} but Disseminator::forward of the same validator sends to {}", got.line(), want.line()));
+            cx.rec.oracle(got == want, "node-receive-path-does-not-forward", || format!("{kind} node {own} of {n} (leader of slot {slot}: {leader}; block of {nslices} slices, arrival order {order}, block already held by the node: {held}) handling shred (slot {slot}, slice {sl}, index {ix}) from the disseminator sent to {} but Disseminator::forward of the same validator sends to {}", got.line(), want.line()));
             class = fnv(class, &want.line());
         }
+        let done = env.rt.block_on(async { bs.read().await.disseminated_block_hash(Slot::new(slot)).is_some() });
         cx.rec.count(&format!("node-glue:own-is-leader={}:relayed-by-own>0={}", leader == own, relayed_by_own > 0));
+        cx.rec.count(&format!("node-glue:own-is-leader={}:block-held-at-the-end={done}:own-duty-after-block-held>0={}", leader == own, after_complete > 0));
     }
     cx.rec.end_case(class, true);
 }
@@ -662,9 +719,21 @@ fn main() {
 
     let extra = serde_json::json!({ "validator_counts": ns, "fanouts": fanouts });
     // ---- the node's receive path really forwards (also the leader's own shreds)
-    for k in 0..(if args.thorough { 12 } else { 4 }) {
+    // (arrival orders incl. "the shreds this node must forward arrive after it has reconstructed the block", Rotor and Turbine)
+    for k in 0..(if args.thorough { 32 } else { 10 }) {
         let n = [4usize, 5, 7, 3][k % 4];
-        node_glue_case(&mut cx, &mut rng, k % n, n);
+        let own = k % n;
+        let (order, complete, own_first) = match k % 10 {
+            0 => (0, false, false),                 // the block never completes (no last-slice marker)
+            9 => (3, true, k % 20 == 9),
+            j => ([0, 1, 2][(j as usize - 1) % 3], true, j % 2 == 0),
+        };
+        if k % 5 == 3 {
+            let f = [2usize, 1, 3][(k / 5) % 3];
+            node_glue_case(&mut cx, &mut rng, own, n, &format!("turbine-f{f}"), &|net, vei| Turbine::new(net, vei).with_fanout(f), order, complete, own_first);
+        } else {
+            node_glue_case(&mut cx, &mut rng, own, n, "rotor", &|net, vei| Rotor::new(net, vei), order, complete, own_first);
+        }
     }
     cx.rec.finish(&args, extra);
 }
